@@ -24,8 +24,16 @@ fn variant(d: &mut Dec, base: &[ModeSpec], p: &GenParams) -> (Vec<ModeSpec>, &'s
     for _attempt in 0..4 {
         match d.below(9) {
             0 => {
-                // one token type changed (kept distinct within the mode)
-                let mut tt = v[mi].pats[pi].tt + 1 + d.below(3);
+                // one token type changed (kept distinct within the mode): a neighbour, or a value
+                // that coincides with the old one when truncated to 8 / 16 / 32 bits
+                let delta = match d.below(6) {
+                    0 => 1usize << 32,
+                    1 => 1 << 16,
+                    2 => 256,
+                    3 => 3usize << 32,
+                    _ => 1 + d.below(3),
+                };
+                let mut tt = v[mi].pats[pi].tt.wrapping_add(delta);
                 while v[mi].pats.iter().any(|q| q.tt == tt) {
                     tt += 1;
                 }
@@ -72,6 +80,14 @@ fn variant(d: &mut Dec, base: &[ModeSpec], p: &GenParams) -> (Vec<ModeSpec>, &'s
                     v[mi].transitions.push((tt, d.below(nm)));
                     v[mi].transitions.sort_unstable();
                     return (v, "transition_added");
+                } else if let Some(pos) = v[mi].transitions.iter().position(|t| t.0 == tt) {
+                    // the trigger moves to a token type equal to the old one modulo 2^32
+                    let moved = tt.wrapping_add(1usize << 32);
+                    if v[mi].transitions.iter().all(|t| t.0 != moved) {
+                        v[mi].transitions[pos].0 = moved;
+                        v[mi].transitions.sort_unstable();
+                        return (v, "transition_trigger_shifted_by_2_32");
+                    }
                 }
             }
             7 => {
